@@ -4,13 +4,13 @@
 use crate::engine::catch;
 use mimium_audiodriver::backends::local_buffer::LocalBufferDriver;
 use mimium_audiodriver::driver::{Driver, RuntimeData, VmDspRuntime};
+use mimium_cli::verif_hooks::Recompiler;
 use mimium_lang::compiler::IoChannelInfo;
 use mimium_lang::plugin::{ExtFunTypeInfo, Plugin};
 use mimium_lang::runtime::wasm::engine::{WasmDspRuntime, WasmEngine};
-use mimium_lang::runtime::{DspRuntime, ProgramPayload, Time};
+use mimium_lang::runtime::{DspRuntime, Time};
 use mimium_lang::utils::error::ReportableError;
 use mimium_lang::{Config, ExecContext};
-use state_tree::patch::CopyFromPatch;
 use state_tree::tree::StateTreeSkeleton;
 use std::path::PathBuf;
 use std::sync::Arc;
@@ -60,6 +60,9 @@ pub struct VmRun {
     pub rd: RuntimeData,
     pub count: Arc<AtomicU64>,
     _driver: LocalBufferDriver,
+    /// the CLI's file runner (hook H6), created at the first swap from the compiler taken out of `ctx`
+    recompiler: Option<Recompiler>,
+    scheduler: bool,
 }
 pub struct WasmRun {
     pub ctx: ExecContext,
@@ -68,6 +71,11 @@ pub struct WasmRun {
     pub plugin_fns: Option<mimium_lang::runtime::wasm::WasmPluginFnMap>,
     pub prev_skel: Option<Skel>,
     pub io: Option<IoChannelInfo>,
+    /// the CLI's file runner (hook H6), created at the first swap
+    recompiler: Option<Recompiler>,
+    /// compiler used in place of the CLI's compiler subprocess
+    swap_compiler: Option<ExecContext>,
+    scheduler: bool,
 }
 
 pub enum Run {
@@ -95,7 +103,7 @@ impl Run {
                     ctx.prepare_machine(src).map_err(|e| RunErr::Compile(errs_to_strings(&e)))?;
                     let _ = ctx.run_main();
                     let rd = RuntimeData::try_from(&mut ctx).map_err(|_| RunErr::Crash("no vm".into()))?;
-                    Ok(VmRun { ctx, rd, count: count.clone(), _driver: driver })
+                    Ok(VmRun { ctx, rd, count: count.clone(), _driver: driver, recompiler: None, scheduler })
                 });
                 match r {
                     Ok(Ok(v)) => Ok(Run::Vm(Box::new(v))),
@@ -120,7 +128,7 @@ impl Run {
                     rt.run_main().map_err(|e| RunErr::Crash(format!("main: {e}")))?;
                     ctx.run_wasm_after_main(rt.engine_mut());
                     DspRuntime::set_sample_rate(&mut rt, 48000.0);
-                    Ok(WasmRun { ctx, rt, ext_fns, plugin_fns: plugin_fns2, prev_skel: out.dsp_state_skeleton, io: out.io_channels })
+                    Ok(WasmRun { ctx, rt, ext_fns, plugin_fns: plugin_fns2, prev_skel: out.dsp_state_skeleton, io: out.io_channels, recompiler: None, swap_compiler: None, scheduler })
                 });
                 match r {
                     Ok(Ok(v)) => Ok(Run::Wasm(Box::new(v))),
@@ -213,37 +221,42 @@ impl Run {
             }
         }
     }
-    /// compile `src` again and hot-swap it in. Ok(true) = swapped; Err(Compile) = rejected (nothing swapped)
+    /// Compile `src` again and hot-swap it in, the way the CLI's file runner does (hook H6: the real
+    /// `FileRunner::recompile_file_inprocess` / `prepare_hot_swap_wasm_payload`, not a copy).
+    /// Ok(true) = swapped; Err(Compile) = rejected (nothing swapped)
     pub fn swap(&mut self, src: &str, mode: SwapMode) -> Result<bool, RunErr> {
         let r = catch(|| -> Result<bool, RunErr> {
             match self {
                 Run::Vm(v) => {
-                    let prog = v.ctx.get_compiler().unwrap().emit_bytecode(src).map_err(|e| RunErr::Compile(errs_to_strings(&e)))?;
-                    Ok(v.rd.resume_with_program(ProgramPayload::VmProgram(prog)))
+                    if v.recompiler.is_none() {
+                        // run_file: `let compiler = ctx.take_compiler().unwrap(); FileRunner::new(compiler, ..)`
+                        let compiler = v.ctx.take_compiler().ok_or_else(|| RunErr::Crash("no compiler to hand to the file runner".into()))?;
+                        v.recompiler = Some(Recompiler::new(compiler, false, None, vec![], None));
+                    }
+                    match v.recompiler.as_ref().unwrap().recompile_inprocess(src.to_string()) {
+                        Some(payload) => Ok(v.rd.resume_with_program(payload)),
+                        None => Err(diagnose_silent_recompile(src, v.scheduler, false)),
+                    }
                 }
                 Run::Wasm(w) => {
-                    let out = w.ctx.get_compiler().unwrap().emit_wasm(src).map_err(|e| RunErr::Compile(errs_to_strings(&e)))?;
-                    // mirrors mimium-cli FileRunner::prepare_hot_swap_wasm_payload
-                    let (skel, ext): (Option<Skel>, Vec<ExtFunTypeInfo>) = match mode {
-                        SwapMode::InProcess => (out.dsp_state_skeleton.clone(), out.ext_fns.clone()),
-                        SwapMode::Subprocess => (None, w.ext_fns.clone()),
-                    };
-                    let mut engine = WasmEngine::new(&ext, w.plugin_fns.clone()).map_err(|e| RunErr::Crash(format!("prewarm engine: {e}")))?;
-                    engine.load_module(&out.bytes).map_err(|e| RunErr::Crash(format!("prewarm load: {e}")))?;
-                    let mut pre = WasmDspRuntime::new(engine, None, None);
-                    pre.run_main().map_err(|e| RunErr::Crash(format!("prewarm main: {e}")))?;
-                    let gs = pre.engine_mut().get_global_state_data().map(|d| d.to_vec()).ok_or_else(|| RunErr::Crash("missing global state after prewarm".into()))?;
-                    let prepared = pre.into_engine();
-                    let plan = build_required_state_patch_plan(w.prev_skel.clone(), skel.as_ref(), gs.len());
-                    let payload = ProgramPayload::WasmModule {
-                        bytes: out.bytes,
-                        prepared_engine: Box::new(prepared),
-                        dsp_state_skeleton: skel.clone(),
-                        state_patch_plan: plan,
-                        prewarmed_global_state: gs,
-                    };
-                    w.prev_skel = skel;
-                    w.ext_fns = ext;
+                    if w.recompiler.is_none() {
+                        let compiler = w.ctx.take_compiler().ok_or_else(|| RunErr::Crash("no compiler to hand to the file runner".into()))?;
+                        w.recompiler = Some(Recompiler::new(compiler, true, w.prev_skel.clone(), w.ext_fns.clone(), w.plugin_fns.clone()));
+                        // stands in for `mimium-cli file --backend=wasm --emit-wasm` run as a subprocess
+                        let count = Arc::new(AtomicU64::new(0));
+                        let (mut c2, _d) = new_ctx(&count, w.scheduler);
+                        c2.prepare_compiler();
+                        w.swap_compiler = Some(c2);
+                    }
+                    let out = w.swap_compiler.as_ref().unwrap().get_compiler().unwrap().emit_wasm(src).map_err(|e| RunErr::Compile(errs_to_strings(&e)))?;
+                    let rc = w.recompiler.as_ref().unwrap();
+                    let payload = match mode {
+                        // Response::WasmModule arm of recompile_file_inprocess
+                        SwapMode::InProcess => rc.prepare_hot_swap_wasm_payload(out.bytes, out.dsp_state_skeleton.clone(), Some(&out.ext_fns)),
+                        // recompile_file with use_wasm: bytes from the subprocess, no skeleton, no signatures
+                        SwapMode::Subprocess => rc.prepare_hot_swap_wasm_payload(out.bytes, None, None),
+                    }
+                    .map_err(|e| RunErr::Crash(format!("prepare_hot_swap_wasm_payload: {e}")))?;
                     Ok(w.rt.try_hot_swap(payload))
                 }
             }
@@ -255,16 +268,20 @@ impl Run {
     }
 }
 
-/// copy of mimium-cli's private `FileRunner::build_required_state_patch_plan`
-pub fn build_required_state_patch_plan(previous: Option<Skel>, new: Option<&Skel>, prewarmed: usize) -> state_tree::StateStoragePatchPlan {
-    if let (Some(old), Some(new)) = (previous, new.cloned()) {
-        if let Some(plan) = state_tree::build_state_storage_patch_plan(old, new.clone()) {
-            return plan;
-        }
-        let total_size = new.total_size() as usize;
-        return state_tree::StateStoragePatchPlan { total_size, patches: vec![CopyFromPatch { src_addr: 0, dst_addr: 0, size: total_size }] };
+/// The file runner sent nothing to the audio thread: it either reported diagnostics (a rejection) or its compiler
+/// service died. Recompile directly to tell the two apart.
+fn diagnose_silent_recompile(src: &str, scheduler: bool, _wasm: bool) -> RunErr {
+    let count = Arc::new(AtomicU64::new(0));
+    let r = catch(|| {
+        let (mut ctx, _d) = new_ctx(&count, scheduler);
+        ctx.prepare_compiler();
+        ctx.get_compiler().unwrap().emit_bytecode(src).map(|_| ()).map_err(|e| errs_to_strings(&e))
+    });
+    match r {
+        Ok(Err(es)) => RunErr::Compile(es),
+        Ok(Ok(())) => RunErr::Crash("the file runner produced no program although the source compiles".into()),
+        Err(m) => RunErr::Crash(format!("panic: {m}")),
     }
-    state_tree::StateStoragePatchPlan { total_size: prewarmed, patches: vec![] }
 }
 
 /// Full run: start, n samples. Returns per-sample outputs as bit patterns.
